@@ -125,7 +125,7 @@ align 16
 mk_global  pq_gen_sse, function
 func(pq_gen_sse)
 	FUNC_SAVE
-	sub	vec, 3			;Keep as offset to last source
+	sub	DWORD(vec), 3			;Keep as offset to last source (vects is an int: a negative count fails the test below)
 	jng	return_fail		;Must have at least 2 sources
 	cmp	len, 0
 	je	return_pass
